@@ -4,15 +4,19 @@
   (pyvc/sums.py, pyvc/frames.py); the side conditions of an instance are emitted as z3 obligations.
   Checked with:  lean lean/FrameSums.lean   (Lean 4 + Mathlib, installed under /opt/veriftools)
 -/
-import Mathlib.Algebra.BigOperators.Basic
-import Mathlib.Algebra.BigOperators.Ring
+import Mathlib.Algebra.BigOperators.Group.Finset.Basic
+import Mathlib.Algebra.BigOperators.Ring.Finset
 import Mathlib.Algebra.Order.BigOperators.Group.Finset
+import Mathlib.Algebra.Order.BigOperators.Group.List
+import Mathlib.Algebra.Order.BigOperators.Ring.Finset
 import Mathlib.Data.Real.Basic
-import Mathlib.Data.Finset.Basic
-import Mathlib.Algebra.BigOperators.Fin
-import Mathlib.Tactic
+import Mathlib.Tactic.Ring
+import Mathlib.Tactic.Linarith
+import Mathlib.Tactic.Positivity
 
 open Finset BigOperators
+
+set_option linter.unusedSectionVars false
 
 variable {U : Type} [DecidableEq U]
 
